@@ -122,7 +122,7 @@ class BaseWorklist(list):
             self.append("W;")
             return
 
-        if not scheme in {1, 2, 3, 4}:
+        if not isinstance(scheme, int) or not scheme in {1, 2, 3, 4}:
             raise ValueError("scheme must be either 1, 2, 3 or 4")
         self.append(f"W{scheme};")
         return
@@ -382,6 +382,14 @@ class BaseWorklist(list):
         if not direction in {"left_to_right", "right_to_left"}:
             raise ValueError(f'"direction" must be either "left_to_right" or "right_to_left"')
         direction_i = 0 if direction == "left_to_right" else 1
+        for pname, pos in (
+            ("src_start", src_start),
+            ("src_end", src_end),
+            ("dst_start", dst_start),
+            ("dst_end", dst_end),
+        ):
+            if not isinstance(pos, (int, numpy.integer)) or pos < 0:
+                raise ValueError(f"Invalid {pname}: {pos}")
 
         if exclude_wells is None:
             exclude_list = []
@@ -425,6 +433,9 @@ class BaseWorklist(list):
             dst_rack_type,
             _,
         ) = prepare_aspirate_dispense_parameters(*dst_args, max_volume=self.max_volume)
+
+        if not isinstance(liquid_class, str) or ";" in liquid_class:
+            raise ValueError(f"Invalid liquid_class: {liquid_class}")
 
         # automatically decrease multi_disp to support the large volume
         # at the expense of more washing
